@@ -99,6 +99,8 @@ type Exec struct {
 	ordinals    map[string]int
 	assumptions map[string]bool
 	retCount    int
+	own         map[string]string // map reference term -> owning field (owned fields have their own heap classes)
+	recFuncs    map[string]*recFunc
 	symCache    map[string][]string
 	nerr        int
 	inlineStack []*ssa.Function
@@ -495,6 +497,9 @@ func (x *Exec) step(fr *Frame, st *State, ins ssa.Instruction) {
 	case *ssa.MakeMap:
 		r := x.newRef(st, "map")
 		mt := ins.Type()
+		if o := x.ownedTarget(ins); o != "" {
+			x.own[r.S] = o
+		}
 		x.mapInit(st, Sc{r, mt})
 		fr.vals[ins] = Sc{r, mt}
 	case *ssa.MakeSlice:
@@ -1107,8 +1112,17 @@ func mapClasses(mt *types.Map) (string, string, string) {
 	return p + "#dom", p + "#val", p + "#size"
 }
 
+// mapClassesOf returns the heap classes of map m; maps loaded from an owned field live in classes of their own.
+func (x *Exec) mapClassesOf(m Term, mt *types.Map) (string, string, string) {
+	d, v, s := mapClasses(mt)
+	if o, ok := x.own[m.S]; ok {
+		return d + "@" + o, v + "@" + o, s + "@" + o
+	}
+	return d, v, s
+}
+
 func (x *Exec) mapDom(st *State, m Term, mt *types.Map) Term {
-	d, _, _ := mapClasses(mt)
+	d, _, _ := x.mapClassesOf(m, mt)
 	ks := x.heapSort(mt.Key())
 	a := x.classTermSort(st, d, arr(sInt, arr(ks, sBool)))
 	return mkSelect(a, m)
@@ -1127,6 +1141,15 @@ func (x *Exec) heapSort(t types.Type) string {
 
 // classTermSort is classTerm with an explicit full sort.
 func (x *Exec) classTermSort(st *State, class, sort string) Term {
+	if st.param != nil {
+		// compiling a heap-dependent spec function: heap classes are parameters
+		name := quoteSym("hp:" + class)
+		if _, ok := st.param.sorts[class]; !ok {
+			st.param.sorts[class] = sort
+			st.param.order = append(st.param.order, class)
+		}
+		return Term{name, sort}
+	}
 	if t, ok := st.heap[class]; ok {
 		return t
 	}
@@ -1153,7 +1176,7 @@ func (x *Exec) setClass(st *State, class string, nt Term) {
 
 // mapValLeaves enumerates the leaf classes of the map's value type.
 func (x *Exec) mapValRead(st *State, m Term, mt *types.Map, k Term) Val {
-	_, vc, _ := mapClasses(mt)
+	_, vc, _ := x.mapClassesOf(m, mt)
 	ks := x.heapSort(mt.Key())
 	return x.readComposite(st, vc, mt.Elem(), func(class string, sort string) Term {
 		a := x.classTermSort(st, class, arr(sInt, arr(ks, sort)))
@@ -1252,7 +1275,7 @@ func (x *Exec) iteVal(st *State, c Term, a, b Val) Val {
 
 func (x *Exec) mapInit(st *State, m Sc) {
 	mt := m.GT.Underlying().(*types.Map)
-	d, _, sz := mapClasses(mt)
+	d, _, sz := x.mapClassesOf(m.T, mt)
 	ks := x.heapSort(mt.Key())
 	a := x.classTermSort(st, d, arr(sInt, arr(ks, sBool)))
 	empty := Term{fmt.Sprintf("((as const %s) false)", arr(ks, sBool)), arr(ks, sBool)}
@@ -1263,7 +1286,7 @@ func (x *Exec) mapInit(st *State, m Sc) {
 
 func (x *Exec) mapUpdate(st *State, m Sc, k, v Val) {
 	mt := m.GT.Underlying().(*types.Map)
-	d, vc, sz := mapClasses(mt)
+	d, vc, sz := x.mapClassesOf(m.T, mt)
 	ks := x.heapSort(mt.Key())
 	kt := k.(Sc).T
 	a := x.classTermSort(st, d, arr(sInt, arr(ks, sBool)))
@@ -1279,7 +1302,7 @@ func (x *Exec) mapUpdate(st *State, m Sc, k, v Val) {
 
 func (x *Exec) mapDelete(st *State, m Sc, k Val) {
 	mt := m.GT.Underlying().(*types.Map)
-	d, _, sz := mapClasses(mt)
+	d, _, sz := x.mapClassesOf(m.T, mt)
 	ks := x.heapSort(mt.Key())
 	kt := k.(Sc).T
 	a := x.classTermSort(st, d, arr(sInt, arr(ks, sBool)))
@@ -1291,7 +1314,7 @@ func (x *Exec) mapDelete(st *State, m Sc, k Val) {
 
 func (x *Exec) mapLen(st *State, m Sc) Term {
 	mt := m.GT.Underlying().(*types.Map)
-	_, _, sz := mapClasses(mt)
+	_, _, sz := x.mapClassesOf(m.T, mt)
 	s := x.classTermSort(st, sz, arr(sInt, sInt))
 	r := x.def(st, "mlen", mkSelect(s, m.T))
 	st.assume(app(sBool, "<=", intLit(0), r))
@@ -1472,4 +1495,35 @@ func (x *Exec) mathInt(t Term) Term {
 	}
 	fail("bv64 mode: non-constant integer used as index or length")
 	return t
+}
+
+// ownedTarget: if a MakeMap result is stored directly into an owned field, it belongs to that field's class.
+func (x *Exec) ownedTarget(ins *ssa.MakeMap) string {
+	for _, r := range *ins.Referrers() {
+		if stI, ok := r.(*ssa.Store); ok && stI.Val == ins {
+			if fa, ok := stI.Addr.(*ssa.FieldAddr); ok {
+				stt := fa.X.Type().Underlying().(*types.Pointer).Elem()
+				name := typeStr(stt) + "." + stt.Underlying().(*types.Struct).Field(fa.Field).Name()
+				if x.prog.specs.Owned[name] {
+					return name
+				}
+			}
+		}
+	}
+	return ""
+}
+
+type recFunc struct {
+	name      string
+	reads     []string
+	sorts     map[string]string
+	rsort     string
+	rtype     types.Type
+	psorts    []string
+	compiling bool
+}
+
+type paramHeap struct {
+	sorts map[string]string
+	order []string
 }
